@@ -305,8 +305,8 @@ Section Proofs.
   Variable c0 : cstate.
   Hypothesis c0_sorted : sorted (c_items c0).
 
-  Notation step := (step m_eqb m_empty w_validate w_merge clock_at str_ltb idfun false prog).
-  Notation run := (run m_eqb m_empty w_validate w_merge clock_at str_ltb idfun false prog).
+  Notation step := (step m_eqb m_empty w_validate w_merge clock_at str_ltb idfun false false prog).
+  Notation run := (run m_eqb m_empty w_validate w_merge clock_at str_ltb idfun false false prog).
   Notation s0 := (s0 prog v0 c0).
   Notation Inv := (Inv m_eqb m_empty w_validate w_merge clock_at str_ltb idfun prog v0 c0).
 
